@@ -5,11 +5,9 @@
 // slice-bounds checks are on; where the decoder returns a collection whose size is driven by a
 // count read from the wire, the size is asserted to be bounded by the input length.
 //
-// Genuine defects found here are kept as `__known` harnesses (restricted to the recorded trigger,
-// expected to fail) next to `__rest` harnesses (negated trigger, must pass):
-//   KF-C07-1  FragmentNumberSet::try_read_from_bytes: numBits > 256 -> index out of bounds
-//   KF-C07-2  FragmentNumberSet::try_read_from_bytes: bitmapBase + delta overflows u32 (debug build)
-//   KF-C07-3  String::cdr_deserialize: CDR string length 0 -> `length as usize - 1` underflow
+// Three defects found by these harnesses have been repaired in /repo (FragmentNumberSet numBits > 256,
+// FragmentNumberSet / SequenceNumberSet members beyond the number range, CDR string length 0);
+// the former trigger scenarios are now ordinary obligations asserting the rejection.
 use alloc::string::String;
 
 use crate::dcps::data_representation_builtin_endpoints::rtps_data_representation::{
@@ -466,6 +464,7 @@ fn check_data_frag(h: &SubmessageHeaderRead, body: &[u8]) -> Result<DataFragSubm
     match r {
         Ok(d) => {
             assert!(len >= 32, "C07: DATA_FRAG decoded from fewer bytes than its fixed part");
+            assert!(d.fragment_size() != 0, "C07: DATA_FRAG with fragmentSize 0 accepted");
             assert!(d.serialized_payload().as_ref().len() <= len, "C07: DATA_FRAG payload longer than the input");
             let np = d.inline_qos().parameter().len();
             assert!(np * 4 <= len, "C07: more inline-QoS parameters than input allows");
@@ -497,7 +496,7 @@ fn c07_datafrag_no_inline_qos() {
         let r = check_data_frag(&h, &bytes[..len]);
         if flags == 0b0001 {
             kani::cover!(matches!(&r, Ok(d) if d.serialized_payload().as_ref().len() == 8), "DATA_FRAG with an 8-byte payload decodes");
-            kani::cover!(matches!(&r, Ok(d) if d.fragment_size() == 0 && d.fragments_in_submessage() == 0), "DATA_FRAG with fragment size 0 decodes (the decoder does not validate fragment fields)");
+            kani::cover!(r.is_err() && len == 40 && bytes[26] == 0 && bytes[27] == 0 && h.submessage_length() == 0 && bytes[2] == 28 && bytes[3] == 0, "a complete DATA_FRAG with fragmentSize 0 is rejected");
             kani::cover!(r.is_err() && len == 40, "full-length DATA_FRAG body rejected");
         }
         if flags == 0b0100 {
@@ -541,9 +540,10 @@ fn datafrag_family(swap: bool) {
             let h = header_conc(0b0010, 0);
             check_data_frag(&h, &b[..end])
         };
+        let fsize = if le { u16::from_le_bytes([b[26], b[27]]) } else { u16::from_be_bytes([b[26], b[27]]) };
         match c.payload {
             Some(p) => {
-                assert!(r.is_ok(), "C07: well-formed DATA_FRAG with inline QoS rejected");
+                assert!(r.is_ok() == (fsize != 0), "C07: well-formed DATA_FRAG with inline QoS decodes iff fragmentSize != 0");
                 if let Ok(d) = &r {
                     assert!(d.inline_qos().parameter().len() == c.lengths.len(), "C07: DATA_FRAG inline-QoS parameter count");
                     assert!(d.serialized_payload().as_ref().len() == p, "C07: DATA_FRAG payload length after inline QoS");
@@ -631,7 +631,7 @@ fn c07_info_reply_full() {
 // ------------------------------------------------------------------------------------------
 
 // @check props=C07 tier=quick
-// @desc SequenceNumberSet::try_read_from_bytes on arbitrary bytes, both endiannesses: Ok implies numBits <= 256 and exactly 12 + 4*ceil(numBits/32) bytes consumed (<= input length); never panics
+// @desc SequenceNumberSet::try_read_from_bytes on arbitrary bytes, both endiannesses: Ok implies numBits <= 256, base + numBits - 1 <= i64::MAX and exactly 12 + 4*ceil(numBits/32) bytes consumed (<= input length); never panics
 // @bounds 28 symbolic bytes (<= 4 bitmap words), symbolic length; unwind 10 (bitmap loop <= 8)
 // @enc rtps_messages::submessage_elements::SequenceNumberSet::try_read_from_bytes
 #[kani::proof]
@@ -650,6 +650,7 @@ fn c07_sequence_number_set() {
         let hi = rd_u32(&bytes, 0, &e) as i32 as i64;
         let lo = rd_u32(&bytes, 4, &e) as i64;
         assert!(s.base() == (hi << 32) + lo, "C07: SequenceNumberSet base");
+        assert!(nb == 0 || s.base().checked_add(nb as i64 - 1).is_some(), "C07: SequenceNumberSet whose last member exceeds i64::MAX accepted");
     }
     kani::cover!(r.is_ok() && len == 28, "a set with 4 bitmap words decodes");
     kani::cover!(matches!(&r, Ok(s) if s.base() < 0), "a negative base decodes");
@@ -769,7 +770,7 @@ fn c07_parameter_list_symbolic() {
 }
 
 // ------------------------------------------------------------------------------------------
-// FragmentNumberSet / NACK_FRAG  (KF-C07-1, KF-C07-2)
+// FragmentNumberSet / NACK_FRAG
 //
 // FragmentNumberSet::try_read_from_bytes materialises the members in a Vec::with_capacity(256)
 // (conditional push per bit). With a symbolic bitmap the Vec length is symbolic at every push;
@@ -778,13 +779,13 @@ fn c07_parameter_list_symbolic() {
 // base and a symbolic input length.
 // ------------------------------------------------------------------------------------------
 
-/// numBits > 256: the bitmap reader stops after 8 words (`take`), the member loop does not.
-fn fns_trigger_1(num_bits: u32) -> bool {
+/// numBits > 256 (more than the 8 bitmap words can describe).
+fn fns_too_wide(num_bits: u32) -> bool {
     num_bits > 256
 }
-/// base + (numBits - 1) does not fit in u32: `base + delta_n as u32` can overflow for a set bit.
-fn fns_trigger_2(base: u32, num_bits: u32) -> bool {
-    num_bits >= 1 && num_bits <= 256 && (base as u64) + (num_bits as u64 - 1) > u32::MAX as u64
+/// base + (numBits - 1) does not fit in u32: the last member would not be a fragment number.
+fn fns_out_of_range(base: u32, num_bits: u32) -> bool {
+    num_bits >= 1 && (base as u64) + (num_bits as u64 - 1) > u32::MAX as u64
 }
 
 fn put_u32(b: &mut [u8], at: usize, v: u32, le: bool) {
@@ -792,47 +793,31 @@ fn put_u32(b: &mut [u8], at: usize, v: u32, le: bool) {
     b[at..at + 4].copy_from_slice(&x);
 }
 
-// @check props=C07,C06 tier=quick known=KF-C07-1
-// @desc KNOWN DEFECT: FragmentNumberSet::try_read_from_bytes with numBits > 256 and 8 bitmap words present indexes bitmap[256/32] out of bounds (there is no numBits <= 256 check, unlike SequenceNumberSet); reachable from any NACK_FRAG submessage of >= 56 body bytes
-// @bounds 40 bytes: base symbolic, numBits = 257 (little-endian image) and numBits = u32::MAX (big-endian image), bitmap words zero (no element is pushed before the out-of-bounds index is reached); unwind 259 (member loop reaches delta_n = 256)
-// @assume trigger: numBits > 256, 8 bitmap words present (representatives 257 and 0xffffffff, bitmap zero)
+// @check props=C07,C06 tier=quick
+// @desc FragmentNumberSet::try_read_from_bytes rejects sets it cannot represent: numBits > 256, or base + numBits - 1 > u32::MAX (formerly an out-of-bounds index / an addition overflow, repaired in /repo): Err for every base and numBits in that region, both endiannesses, no panic
+// @bounds 40 bytes: base and numBits symbolic within the rejection region, the 8 bitmap words zero; unwind 10 (the member loops are not reached)
+// @assume numBits > 256 or base + numBits - 1 > u32::MAX (the accepted region is covered by the family harnesses)
 // @enc rtps_messages::submessage_elements::FragmentNumberSet::try_read_from_bytes
 #[kani::proof]
-#[kani::unwind(259)]
-fn c07_fragment_number_set_numbits__known() {
-    let base: u32 = kani::any();
-    for (le, nb) in [(true, 257u32), (false, u32::MAX)] {
-        let mut bytes = [0u8; 40];
-        put_u32(&mut bytes, 0, base, le);
-        put_u32(&mut bytes, 4, nb, le);
-        assert!(fns_trigger_1(nb));
-        let e = if le { Endianness::LittleEndian } else { Endianness::BigEndian };
-        let mut d = &bytes[..];
-        let r = FragmentNumberSet::try_read_from_bytes(&mut d, &e);
-        core::mem::forget(r);
+#[kani::unwind(10)]
+fn c07_fragment_number_set_rejects_unrepresentable() {
+    let e = any_endianness();
+    let head: [u8; 8] = kani::any();
+    let mut bytes = [0u8; 40];
+    let mut i = 0;
+    while i < 8 {
+        bytes[i] = head[i];
+        i += 1;
     }
-}
-
-// @check props=C07,C06 tier=quick known=KF-C07-2
-// @desc KNOWN DEFECT (builds with overflow checks, e.g. debug): FragmentNumberSet::try_read_from_bytes computes `base + delta_n as u32` for every set bit; with bitmapBase close to u32::MAX the addition overflows and panics
-// @bounds 12 bytes: base symbolic in [u32::MAX - 1, u32::MAX], numBits = 3, bitmap word 0xe0000000 (all three bits set), little- and big-endian image; unwind 5
-// @assume trigger: 1 <= numBits <= 256, base + numBits - 1 > u32::MAX and the overflowing bit is set (representative numBits = 3, all bits set)
-// @enc rtps_messages::submessage_elements::FragmentNumberSet::try_read_from_bytes
-#[kani::proof]
-#[kani::unwind(5)]
-fn c07_fragment_number_set_base_overflow__known() {
-    let base: u32 = kani::any();
-    kani::assume(fns_trigger_2(base, 3));
-    for le in [true, false] {
-        let mut bytes = [0u8; 12];
-        put_u32(&mut bytes, 0, base, le);
-        put_u32(&mut bytes, 4, 3, le);
-        put_u32(&mut bytes, 8, 0xe000_0000, le);
-        let e = if le { Endianness::LittleEndian } else { Endianness::BigEndian };
-        let mut d = &bytes[..];
-        let r = FragmentNumberSet::try_read_from_bytes(&mut d, &e);
-        core::mem::forget(r);
-    }
+    let base = rd_u32(&bytes, 0, &e);
+    let nb = rd_u32(&bytes, 4, &e);
+    kani::assume(fns_too_wide(nb) || fns_out_of_range(base, nb));
+    let mut d = &bytes[..];
+    let r = FragmentNumberSet::try_read_from_bytes(&mut d, &e);
+    assert!(r.is_err(), "C07: FragmentNumberSet with numBits > 256 or members beyond u32::MAX accepted");
+    kani::cover!(nb == 257, "numBits = 257 is rejected");
+    kani::cover!(nb == 3 && base == u32::MAX - 1, "base = u32::MAX - 1 with numBits = 3 is rejected");
+    core::mem::forget(r);
 }
 
 /// (numBits, bitmap word pattern): control concrete, so the member Vec length stays concrete.
@@ -848,10 +833,9 @@ const FNS_CASES: [(u32, u32); 9] = [
     (256, 0x0000_0001),
 ];
 
-/// FragmentNumberSet image at `at` in `b`: symbolic base (not in trigger 2), concrete numBits / bitmap.
+/// FragmentNumberSet image at `at` in `b`: symbolic base (any u32), concrete numBits / bitmap.
 fn lay_out_fns(b: &mut [u8], at: usize, le: bool, nb: u32, pat: u32) -> (u32, usize) {
     let base: u32 = kani::any();
-    kani::assume(!fns_trigger_2(base, nb));
     put_u32(b, at, base, le);
     put_u32(b, at + 4, nb, le);
     let words = ((nb + 31) / 32) as usize;
@@ -876,7 +860,7 @@ fn fns_family(from: usize, to: usize) {
         let e = if le { Endianness::LittleEndian } else { Endianness::BigEndian };
         let mut d = &bytes[..];
         let r = FragmentNumberSet::try_read_from_bytes(&mut d, &e);
-        assert!(r.is_ok(), "C07: well-formed FragmentNumberSet rejected");
+        assert!(r.is_ok() == !fns_out_of_range(base, nb), "C07: FragmentNumberSet decodes iff its last member fits in u32");
         if let Ok(s) = &r {
             assert!(s.base() == base, "C07: FragmentNumberSet base");
             assert!(d.len() == 40 - 8 - 4 * words, "C07: FragmentNumberSet consumed a wrong number of bytes");
@@ -887,36 +871,36 @@ fn fns_family(from: usize, to: usize) {
 }
 
 // @check props=C07 tier=quick
-// @desc FragmentNumberSet::try_read_from_bytes outside the two recorded triggers: numBits 0 / 1 / 4 / 32 / 33 / 64 with concrete bitmap patterns, symbolic base (not overflowing): decodes, base preserved, exact consumption, no panic
-// @bounds members 1..6 of FNS_CASES in a 40-byte buffer; base any u32 with base + numBits - 1 <= u32::MAX; trailing bytes symbolic; endianness alternating; unwind 66 (member loops <= 64)
-// @assume NOT trigger KF-C07-1 (numBits > 256), NOT trigger KF-C07-2 (base + numBits - 1 > u32::MAX); numBits and bitmap pattern concrete from FNS_CASES (a symbolic bitmap makes the length of the member Vec symbolic at every push: 4 bits already exceed 9 GB)
+// @desc FragmentNumberSet::try_read_from_bytes for numBits 0 / 1 / 4 / 32 / 33 / 64 with concrete bitmap patterns and ANY base: decodes iff base + numBits - 1 <= u32::MAX, base preserved, exact consumption, no panic
+// @bounds members 1..6 of FNS_CASES in a 40-byte buffer; base any u32; trailing bytes symbolic; endianness alternating; unwind 66 (member loops <= 64)
+// @assume numBits and bitmap pattern concrete from FNS_CASES (a symbolic bitmap makes the length of the member Vec symbolic at every push: 4 bits already exceed 9 GB)
 // @enc rtps_messages::submessage_elements::FragmentNumberSet::try_read_from_bytes
 // @enc rtps_messages::submessage_elements::FragmentNumberSet::new
 #[kani::proof]
 #[kani::unwind(66)]
-fn c07_fragment_number_set_family__rest() {
+fn c07_fragment_number_set_family() {
     fns_family(0, 6);
 }
 
 // @check props=C07 tier=thorough timeout=1500
-// @desc FragmentNumberSet::try_read_from_bytes outside the recorded triggers for the widest sets: numBits 255 / 256 with concrete bitmap patterns (empty, all ones, sparse), symbolic base
+// @desc FragmentNumberSet::try_read_from_bytes for the widest sets: numBits 255 / 256 with concrete bitmap patterns (empty, all ones, sparse), symbolic base
 // @bounds members 7..9 of FNS_CASES; unwind 258
-// @assume NOT trigger KF-C07-1, NOT trigger KF-C07-2; numBits and bitmap pattern concrete from FNS_CASES
+// @assume numBits and bitmap pattern concrete from FNS_CASES
 // @enc rtps_messages::submessage_elements::FragmentNumberSet::try_read_from_bytes
 #[kani::proof]
 #[kani::unwind(258)]
-fn c07_fragment_number_set_widest__rest() {
+fn c07_fragment_number_set_widest() {
     fns_family(6, 9);
 }
 
 // @check props=C07 tier=quick
-// @desc FragmentNumberSet::try_read_from_bytes on truncated input (outside the recorded triggers): numBits 0 and 33 with an all-zero bitmap, symbolic base, input lengths {0,3,4,7,8,11,12,15,16}: decodes iff base, numBits and ceil(numBits/32) bitmap words are present; no panic
+// @desc FragmentNumberSet::try_read_from_bytes on truncated input: numBits 0 and 33 with an all-zero bitmap, symbolic base, input lengths {0,3,4,7,8,11,12,15,16}: decodes iff base, numBits and ceil(numBits/32) bitmap words are present; no panic
 // @bounds 16-byte buffer, input length enumerated over every field boundary and one byte before it (concrete per call; a symbolic length did not terminate in 600 s), numBits 0 little-endian / 33 big-endian; unwind 35
-// @assume NOT trigger KF-C07-1, NOT trigger KF-C07-2; numBits in {0, 33}, bitmap zero
+// @assume numBits in {0, 33}, bitmap zero
 // @enc rtps_messages::submessage_elements::FragmentNumberSet::try_read_from_bytes
 #[kani::proof]
 #[kani::unwind(35)]
-fn c07_fragment_number_set_truncated__rest() {
+fn c07_fragment_number_set_truncated() {
     for (le, nb) in [(true, 0u32), (false, 33)] {
         let mut bytes = [0u8; 16];
         let (_base, words) = lay_out_fns(&mut bytes, 0, le, nb, 0);
@@ -924,7 +908,7 @@ fn c07_fragment_number_set_truncated__rest() {
         for len in [0usize, 3, 4, 7, 8, 11, 12, 15, 16] {
             let mut d = &bytes[..len];
             let r = FragmentNumberSet::try_read_from_bytes(&mut d, &e);
-            assert!(r.is_ok() == (len >= 8 + 4 * words), "C07: FragmentNumberSet decodes iff base, numBits and the bitmap words are present");
+            assert!(r.is_ok() == (len >= 8 + 4 * words && !fns_out_of_range(_base, nb)), "C07: FragmentNumberSet decodes iff base, numBits and the bitmap words are present and the last member fits in u32");
             kani::cover!(r.is_err() && nb == 33 && len == 15, "a set with a truncated second bitmap word is rejected");
             kani::cover!(r.is_ok() && nb == 0 && len == 8, "an empty set decodes from exactly 8 bytes");
             core::mem::forget(r);
@@ -933,13 +917,13 @@ fn c07_fragment_number_set_truncated__rest() {
 }
 
 // @check props=C07 tier=quick
-// @desc NackFragSubmessage::try_from_bytes outside the two recorded FragmentNumberSet triggers: symbolic ids / writerSN / count / base, FragmentNumberSet control fields from the family (numBits 0, 4, 33), body lengths {full, one byte short of the count, without bitmap}: decodes iff the whole body is present, with the wire base; no panic
+// @desc NackFragSubmessage::try_from_bytes: symbolic ids / writerSN / count / base, FragmentNumberSet control fields from the family (numBits 0, 4, 33), body lengths {full, one byte short of the count, without bitmap}: decodes iff the whole body is present and the set is representable, with the wire base; no panic
 // @bounds body 36 bytes (ids 8, writerSN 8, set 8 + <= 8, count 4 + trailing); members 1, 3, 5 of FNS_CASES; body length from {36, 27 + 4*words, 20}; endianness alternating (flags octet concrete 0/1, submessage id and length symbolic); unwind 35
-// @assume NOT trigger KF-C07-1, NOT trigger KF-C07-2; numBits and bitmap pattern concrete from FNS_CASES; body length from the enumerated set
+// @assume numBits and bitmap pattern concrete from FNS_CASES; body length from the enumerated set
 // @enc rtps_messages::submessages::nack_frag::NackFragSubmessage::try_from_bytes
 #[kani::proof]
 #[kani::unwind(35)]
-fn c07_nack_frag_family__rest() {
+fn c07_nack_frag_family() {
     let mut i = 0usize;
     for (nb, pat) in [FNS_CASES[0], FNS_CASES[2], FNS_CASES[4]] {
         i += 1;
@@ -949,7 +933,7 @@ fn c07_nack_frag_family__rest() {
         let h = header_with_flags(if le { 1 } else { 0 });
         for len in [36usize, 27 + 4 * words, 20] {
             let r = NackFragSubmessage::try_from_bytes(&h, &bytes[..len]);
-            assert!(r.is_ok() == (len >= 28 + 4 * words), "C07: NACK_FRAG decodes iff its whole body is present");
+            assert!(r.is_ok() == (len >= 28 + 4 * words && !fns_out_of_range(base, nb)), "C07: NACK_FRAG decodes iff its whole body is present and the set is representable");
             if let Ok(m) = &r {
                 assert!(m.fragment_number_state().base() == base, "C07: NACK_FRAG set base");
             }
@@ -1124,50 +1108,54 @@ fn utf8_accept_all(_v: &[u8]) -> Result<&str, core::str::Utf8Error> {
     Ok("")
 }
 
-// @check props=C07,C06 tier=quick known=KF-C07-3
-// @desc KNOWN DEFECT: a string-valued discovery parameter whose CDR length field is 0 makes String::cdr_deserialize compute `length as usize - 1` (PID_DOMAIN_TAG of SPDP participant data is read with get_optional_parameter::<String>)
-// @bounds 20-byte parameter list image, both representation headers (PL_CDR_LE, PL_CDR_BE): PID_DOMAIN_TAG, value length 4, CDR string length 0, sentinel; unwind 6
-// @assume trigger: the parameter found for the requested pid has >= 4 value bytes and its CDR string length field is 0
+// @check props=C07,C06 tier=quick
+// @desc a string-valued discovery parameter (PID_DOMAIN_TAG of SPDP participant data, read with get_optional_parameter::<String>) whose CDR length field is 0 is rejected with InvalidData (formerly `length as usize - 1` underflowed and panicked; repaired in /repo), for both representation headers
+// @bounds 20-byte parameter list image (PL_CDR_LE, PL_CDR_BE): PID_DOMAIN_TAG, value length 4, CDR string length 0, sentinel; unwind 6
 // @assume stub: core::str::from_utf8 replaced by a function accepting every byte string (std's UTF-8 validator is trusted, not checked; its loops over a symbolic-length buffer are intractable)
 // @enc dcps::data_representation_builtin_endpoints::rtps_data_representation::ParameterList::get_optional_parameter
 // @enc dcps::data_representation_builtin_endpoints::rtps_data_representation::String::cdr_deserialize
 #[kani::proof]
 #[kani::unwind(6)]
 #[kani::stub(core::str::from_utf8, utf8_accept_all)]
-fn c07_discovery_string_zero_length__known() {
+fn c07_discovery_string_zero_length_rejected() {
     for le in [true, false] {
         let bytes = string_parameter_image(le, PID_DOMAIN_TAG, 4, 0);
-        if let Ok(pl) = DiscoveryParameterList::new(&bytes[..16]) {
-            let r = pl.get_optional_parameter::<String>(PID_DOMAIN_TAG, String::new());
-            core::mem::forget(r);
+        match DiscoveryParameterList::new(&bytes[..16]) {
+            Ok(pl) => {
+                let r = pl.get_optional_parameter::<String>(PID_DOMAIN_TAG, String::new());
+                assert!(matches!(r, Err(CdrError::InvalidData)), "C07: CDR string of length 0 not rejected");
+                kani::cover!(r.is_err() && !le, "the big-endian zero-length string is rejected");
+                core::mem::forget(r);
+            }
+            Err(_) => assert!(false, "C07: parameter list rejected by new()"),
         }
     }
 }
 
 // @check props=C07 tier=quick
-// @desc String::cdr_deserialize outside the recorded trigger (CDR length != 0): lengths 1 (empty string), 3, 4 (exactly fills the buffer), 5 and 0xffffffff (beyond the buffer): Ok exactly when length + 4 <= buffer, decoded length = CDR length - 1, no panic; character bytes symbolic
-// @bounds 8-byte buffer, character / terminator bytes symbolic, CDR string length and endianness concrete per member (5 lengths, endianness alternating); unwind 6
-// @assume NOT trigger KF-C07-3; CDR string length from {1, 3, 4, 5, 0xffffffff}
-// @assume stub: core::str::from_utf8 replaced by a function accepting every byte string (std's UTF-8 validator is trusted, not checked); the InvalidData branch of the decoder is therefore not exercised
+// @desc String::cdr_deserialize for CDR lengths 0 (invalid), 1 (empty string), 3, 4 (exactly fills the buffer), 5 and 0xffffffff (beyond the buffer): Ok exactly when 1 <= length and length + 4 <= buffer, decoded length = CDR length - 1, no panic; character bytes symbolic
+// @bounds 8-byte buffer, character / terminator bytes symbolic, CDR string length and endianness concrete per member (6 lengths, endianness alternating); unwind 7
+// @assume CDR string length from {0, 1, 3, 4, 5, 0xffffffff}
+// @assume stub: core::str::from_utf8 replaced by a function accepting every byte string (std's UTF-8 validator is trusted, not checked); the InvalidData branch for malformed UTF-8 is therefore not exercised
 // @enc dcps::data_representation_builtin_endpoints::rtps_data_representation::String::cdr_deserialize
 #[kani::proof]
-#[kani::unwind(6)]
+#[kani::unwind(7)]
 #[kani::stub(core::str::from_utf8, utf8_accept_all)]
-fn c07_cdr_string__rest() {
+fn c07_cdr_string() {
     let mut i = 0;
-    for slen in [1u32, 3, 4, 5, 0xffff_ffff] {
+    for slen in [0u32, 1, 3, 4, 5, 0xffff_ffff] {
         i += 1;
         let le = i % 2 == 0;
         let mut bytes: [u8; 8] = kani::any();
         put_u32(&mut bytes, 0, slen, le);
         let e = if le { CdrEndianness::Little } else { CdrEndianness::Big };
         let r = String::cdr_deserialize(&mut CdrDeserializer::new(&bytes[..], e));
-        assert!(r.is_ok() == (slen <= 4), "C07: CDR string decodes iff length + 4 <= buffer");
+        assert!(r.is_ok() == (slen >= 1 && slen <= 4), "C07: CDR string decodes iff 1 <= length and length + 4 <= buffer");
         if let Ok(s) = &r {
             assert!(s.len() == slen as usize - 1, "C07: decoded string length");
             kani::cover!(slen == 3 && s.as_bytes()[0] == b'x', "a 2-character string decodes to the wire bytes");
         }
-        kani::cover!(r.is_err() && slen == 5, "a CDR length beyond the buffer is an error");
+        kani::cover!(r.is_err() && slen == 0, "a CDR length of 0 is an error");
         core::mem::forget(r);
     }
 }
